@@ -120,4 +120,7 @@ mod verif_kani_supportedcone {
         let (merged, skipped) = check_on([any_cone(), any_cone(), any_cone(), any_cone()]);
         kani::cover!(merged && skipped);
     }
+    #[kani::proof]
+    #[kani::unwind(5)]
+    fn new_collapsed_dev4() { check_on([cone_of(0), cone_of(2), cone_of(1), cone_of(0)]); }
 }
